@@ -29,7 +29,7 @@ pub fn run_tree(o: &Opts) {
 /// `vary_root`: the root script is dispatched through wasm_sudo or migrate (to the same code) instead of execute
 /// — each has its own call site of the response processing in WasmKeeper
 pub fn run_tree_from(o: &Opts, vary_root: bool) {
-    let root_entry = if vary_root { 1 + choose(2) } else { 0 };
+    let root_entry = if vary_root { 1 + choose(3) } else { 0 };
     let mut w = world(o.max_depth + 1);
     let root = gen_tree(o);
     let mut uids = BTreeMap::new();
@@ -44,7 +44,9 @@ pub fn run_tree_from(o: &Opts, vary_root: bool) {
     let r = catch(|| match root_entry {
         0 => w.app.execute_contract(user, k0, &script, &[]),
         1 => w.app.wasm_sudo(k0, &script),
-        _ => w.app.migrate_contract(user, k0, &script, 1),
+        2 => w.app.migrate_contract(user, k0, &script, 1),
+        // the generic sudo entry point carrying a wasm sudo (seed C02g)
+        _ => w.app.sudo(cw_multi_test::SudoMsg::Wasm(cw_multi_test::WasmSudo { contract_addr: k0, message: script.bin() })),
     });
     let r = match r {
         Ok(r) => r,
@@ -255,7 +257,7 @@ pub fn scenarios(tier: &str) -> Vec<Scenario> {
     v.push(Scenario::new("trees_nodes3_reply_handlers_emit_submessages_instantiate_leaves", &["tree_ok", "tree_err", "some_failure_caught", "some_instance_kept"], || {
         run_tree(&Opts { max_depth: 1, max_nodes: 3, max_children: 2, vary_output: false, vary_ids: false, reply_subs: true, inst_leaves: true })
     }));
-    v.push(Scenario::new("trees_depth2_nodes3_root_dispatched_by_sudo_or_migrate", &["tree_ok", "tree_err", "some_failure_caught"], || {
+    v.push(Scenario::new("trees_depth2_nodes3_root_dispatched_by_wasm_sudo_migrate_or_sudo", &["tree_ok", "tree_err", "some_failure_caught"], || {
         run_tree_from(&Opts::plain(2, 3, 2), true)
     }));
     if tier == "thorough" {
